@@ -125,6 +125,15 @@ pub struct PeerShared {
     pub frozen: bool,
     /// The writer half is in a `Sleep` op (waiting for simulated time to pass).
     pub sleeping: bool,
+    /// The remote this peer takes over from has been reported gone by the runtime.
+    pub may_attach: bool,
+}
+
+thread_local! {
+    /// Peers waiting to come back under the id of another one: (epoch, peer they wait for, their shared state).
+    static REATTACH_WAITERS: RefCell<Vec<(u32, u32, SharedPeer)>> = const { RefCell::new(Vec::new()) };
+    /// Every peer's shared state: (epoch, peer id, state).
+    static PEER_STATES: RefCell<Vec<(u32, u32, SharedPeer)>> = const { RefCell::new(Vec::new()) };
 }
 
 type SharedPeer = Rc<RefCell<PeerShared>>;
@@ -184,8 +193,43 @@ async fn peer_writer(
     spawn: SpawnQueue,
     budget: usize,
 ) {
+    PEER_STATES.with(|w| w.borrow_mut().push((epoch, script.id, shared.clone())));
     yield_n(script.attach_delay).await;
-    let id = peer_uuid(script.id, epoch);
+    if let Some(of) = script.reattach_of {
+        // Wait until the runtime has reported the earlier remote of that id gone, its script is over and the system
+        // has been idle once since (nothing of the earlier session is in flight any more); give up when the run is
+        // being wound up.
+        REATTACH_WAITERS.with(|w| w.borrow_mut().push((epoch, of, shared.clone())));
+        let mut attach = false;
+        {
+            loop {
+                let of_state = PEER_STATES.with(|w| w.borrow().iter().find(|(e, p, _)| *e == epoch && *p == of).map(|(_, _, s)| s.clone()));
+                let gone = hist.borrow().disconnects.iter().any(|(_, p, _)| *p == of);
+                let over = of_state.map(|s| s.borrow().writer_done).unwrap_or(false);
+                if shared.borrow().drain {
+                    break;
+                }
+                // An idle point (every blocked writer is released at one).
+                let target = shared.borrow().barrier_release + 1;
+                WaitFor { shared: shared.clone(), cond: move |s: &PeerShared| s.barrier_release >= target || s.drain }.await;
+                if shared.borrow().drain {
+                    break;
+                }
+                if gone && over {
+                    attach = true;
+                    break;
+                }
+            }
+        }
+        if !attach {
+            hist.borrow_mut().marks.push((now_step(), format!("peer{} never-reattached", script.id)));
+            shared.borrow_mut().writer_done = true;
+            shared.borrow_mut().reader_gone = true;
+            return;
+        }
+        hist.borrow_mut().marks.push((now_step(), format!("peer{} reattaches as peer{}", script.id, of)));
+    }
+    let id = peer_uuid(script.reattach_of.unwrap_or(script.id), epoch);
     let (to_agent_tx, to_agent_rx) = byte_channel(NonZeroUsize::new(script.in_cap.max(1) as usize).unwrap());
     let (from_agent_tx, from_agent_rx) = byte_channel(NonZeroUsize::new(script.out_cap.max(1) as usize).unwrap());
     let (done_tx, done_rx) = promise::promise();
@@ -215,6 +259,17 @@ async fn peer_writer(
                     Err(_) => "PromiseDropped".to_string(),
                 };
                 h.borrow_mut().disconnects.push((now_step(), pid, text));
+                REATTACH_WAITERS.with(|w| {
+                    for (_, of, sh) in w.borrow().iter() {
+                        if *of == pid {
+                            let mut s = sh.borrow_mut();
+                            s.may_attach = true;
+                            if let Some(w) = s.writer_waker.take() {
+                                w.wake();
+                            }
+                        }
+                    }
+                });
             }),
         ));
         let h = hist.clone();
@@ -717,7 +772,7 @@ fn start_incarnation(
     let lane_config = LaneConfig {
         input_buffer_size: nz(k.lane_in_buf),
         output_buffer_size: nz(k.lane_out_buf),
-        transient: false,
+        transient: k.all_lanes_transient,
     };
     let config = CombinedAgentConfig {
         agent_config: AgentConfig {
@@ -1072,6 +1127,7 @@ pub async fn run_scenario(sc: &AgentScenario, keep_log: bool) -> RunRecord {
                                 .iter()
                                 .map(|l| Op::Sync { lane: l.to_string() })
                                 .collect(),
+                            reattach_of: None,
                         };
                         let shared: SharedPeer = Rc::new(RefCell::new(PeerShared::default()));
                         inc2.peers.push(shared.clone());
